@@ -123,6 +123,12 @@ pub struct RefTrace {
     /// iterator must go on after such an item, so an iteration that simply ends there is
     /// accepted; if it does go on, what it yields must be the continuation prescribed here.
     pub soft_errors: Vec<usize>,
+    /// The history ends in an error item produced by a `while` condition that could not be
+    /// evaluated, in a program without `random`. Nothing executes between that item and the next
+    /// `next()` - no driver call, no binding - so the condition cannot evaluate any differently:
+    /// whatever the iterator does next, it cannot justify a ROW (a body row would need the
+    /// condition non-zero, a row behind the loop would need it zero; C01 + C04).
+    pub ends_in_failing_while_condition: bool,
 }
 
 #[derive(Clone, Debug, Serialize)]
@@ -221,6 +227,7 @@ struct Interp<'a> {
     in_control: bool,
     err_vars: BTreeMap<usize, BTreeMap<String, i64>>,
     soft_errors: Vec<usize>,
+    while_cond_failed: bool,
     /// identifier occurrences that mean a variable (one of that name is in scope there)
     bound: std::collections::HashSet<usize>,
 }
@@ -793,6 +800,9 @@ impl<'a> Interp<'a> {
                         self.in_control = true;
                         let v = self.eval(c, None);
                         self.in_control = false;
+                        if v.is_err() {
+                            self.while_cond_failed = true;
+                        }
                         if v.map_err(Stop::Err)? == 0 {
                             break;
                         }
@@ -914,6 +924,7 @@ pub fn run(p: &Program, sigs: &[Sig], script: &Script, opts: RefOpts) -> RefOutc
         in_control: false,
         err_vars: BTreeMap::new(),
         soft_errors: vec![],
+        while_cond_failed: false,
         bound: crate::scope::analyse(p).bound,
     };
     let _ = it.header;
@@ -985,6 +996,7 @@ pub fn run(p: &Program, sigs: &[Sig], script: &Script, opts: RefOpts) -> RefOutc
         n_cfg,
         err_vars: it.err_vars,
         soft_errors: it.soft_errors,
+        ends_in_failing_while_condition: it.while_cond_failed && !ended && !p.uses_random() && it.opts.draws.is_none() && !it.opts.fake_draws,
         list_virtuals: sigs.iter().enumerate().filter(|(_, s)| matches!(s.kind, SigKind::Virtual(_))).map(|(i, _)| i).collect(),
     }))
 }
